@@ -64,21 +64,27 @@ class JsonSchemaGenerator:
             enum_type = None
             enum_values = []
             enum_map = {}
+            mixed = False
             for key, val in t.__members__.items():
                 enum_values.append(val.value)
                 enum_map[key] = val.value
+                if enum_type is not None and type(val.value) is not enum_type:
+                    mixed = True
                 enum_type = type(val.value)
+            if mixed:
+                # a "type" keyword must admit every member value: stated only when the members share one type
+                enum_type = None
             if not isinstance(base, EnumMeta):
                 enum_type = base
-            prim = self._get_primitive(enum_type)
-            fmt = self._get_format(enum_type)
             data = {
-                "type": prim,
                 "enum": enum_values,
                 "x-annotation": {
                     "enums": enum_map
                 }
             }
+            if enum_type:
+                data.update(type=self._get_primitive(enum_type))
+            fmt = self._get_format(enum_type)
             if fmt:
                 data.update(format=fmt)
             return data
